@@ -34,6 +34,7 @@ inductive Val
   | str (s : String)
   | links (ls : List Link)
   | tags (terms : List String)     -- each tag dict reduced to its "term"
+  | none                           -- Python's None stored as a value (a JSON feed's `"summary": null`): present, like any other value
 deriving DecidableEq, Repr
 
 abbrev Store := List (Key × Val)
